@@ -51,16 +51,18 @@
 (* the case's grammar must be LR(1) (a conflict reached during evaluation  *)
 (* is reported and the case is discarded by the orchestrator).             *)
 (***************************************************************************)
-EXTENDS CanonLR, SemVal, Cfg, Prec, TLC, Json, IOUtils
+EXTENDS CanonLR, SemVal, Cfg, Prec, Macro, TLC, Json, IOUtils
 
 (* raw cases; those carrying cfg attributes mean their filtered grammar (Cfg.tla) *)
 Raw == JsonDeserialize(IOEnv.EVAL_CASES)
 HasCfg(r) == "feats" \in DOMAIN r
 Cases == [i \in DOMAIN Raw |-> IF HasCfg(Raw[i]) /\ SelfContained(Raw[i]) THEN ApplyCfg(Raw[i])
                                ELSE IF HasPrec(Raw[i]) THEN ApplyPrec(Raw[i])   \* the documented tiered grammar (Prec.tla)
+                               ELSE IF HasSugar(Raw[i]) THEN ApplyMacro(Raw[i]) \* expansion by substitution (Macro.tla)
                                ELSE Raw[i]]
 NC == Len(Cases)
-Evaluable(k) == HasCfg(Raw[k]) => SelfContained(Raw[k])
+Evaluable(k) == /\ HasCfg(Raw[k]) => SelfContained(Raw[k])
+                /\ HasSugar(Raw[k]) => MacroOk(Raw[k])
 PreOf == [k \in 1..NC |-> Pre(Cases[k].G)]
 
 NoLa == [t |-> "none", k |-> 0]
